@@ -59,6 +59,7 @@ def handlers : List (String × Handler) := [
   ("watcher", C16.handleWatcher),
   ("watcher-fatal", C16.handleFatal),
   ("watcher-unsched", C16.handleUnsched),
+  ("watcher-late", C16.handleLate),
   ("jsonpath", C18.handleJsonpath),
   ("mutate", C18.handleMutate)
 ]
